@@ -125,13 +125,13 @@ def identify_pareto_variants(c, V):
   V.fast_clean = (r == [True, False])
   c.flags['fastCleanSplit'] = V.fast_clean
   if not V.fast_clean:
-    c.prop_fail(KEY_FAST, 'FastParetoOptimalAlgorithm(recursive_threshold=1).is_pareto_optimal(%s) = %s, the front is [True, False]' % (FAST_WITNESS, r),
+    c.prop_fail(KEY_FAST if r == [True, True] else 'pareto-fast-other', 'FastParetoOptimalAlgorithm(recursive_threshold=1).is_pareto_optimal(%s) = %s, the front is [True, False]' % (FAST_WITNESS, r),
                 {'pts': FAST_WITNESS, 'thr': 1, 'real': r, 'front': [True, False], 'witness_of': 'c11_fast_counterexample'})
   r = bools(xp.is_frontier(w, num_shards=1))
   V.shards_plus_one = (r == [True, False])
   c.flags['isFrontierOneShardFilters'] = V.shards_plus_one
   if not V.shards_plus_one:
-    c.prop_fail(KEY_SHARD1, 'xla_pareto.is_frontier(%s, num_shards=1) = %s, the front is [True, False]' % (FAST_WITNESS, r),
+    c.prop_fail(KEY_SHARD1 if r == [True, True] else 'jax-is-frontier-other', 'xla_pareto.is_frontier(%s, num_shards=1) = %s, the front is [True, False]' % (FAST_WITNESS, r),
                 {'pts': FAST_WITNESS, 'num_shards': 1, 'real': r, 'front': [True, False], 'witness_of': 'c11_sharded_counterexample'})
 
 
@@ -437,7 +437,7 @@ def service_stage(c, V, n, backends):
   V.svc_skip_nan = (got == [1])
   c.flags['listOptimalSkipsNaN'] = V.svc_skip_nan
   if not V.svc_skip_nan:
-    c.prop_fail(KEY_SVC_NAN, 'ListOptimalTrials returned trials %s; trial 2 has a NaN objective and must never be reported (optimal: [1])' % got,
+    c.prop_fail(KEY_SVC_NAN if got == [1, 2] else 'list-optimal-trials-other', 'ListOptimalTrials returned trials %s; trial 2 has a NaN objective and must never be reported (optimal: [1])' % got,
                 {'history': canon_case(SVC_NAN_WITNESS), 'real': got, 'definition': [1], 'witness_of': 'c11_service_nan_counterexample'})
   cases = [gen_service_case(c.rng) for _ in range(n)]
   runs, reqs = [], []
@@ -448,7 +448,6 @@ def service_stage(c, V, n, backends):
       runs.append((case, be, stored, got, cl1, cl2))
       reqs.append(service_request(case, stored, V.svc_skip_nan))
   models = c.lean('C11', reqs)
-  per_case = {}
   for (case, be, stored, got, cl1, cl2), m in zip(runs, models):
     if 'error' in m:
       raise core.InfraError('driver: %s' % m)
@@ -467,10 +466,6 @@ def service_stage(c, V, n, backends):
       c.tie_break('ListOptimalTrials (%s)' % be, cc, got, m['model'])
     if cl1 != got or cl2 != got:
       c.prop_fail('client-optimal-trials-differs', 'clients.Study.optimal_trials() %s/%s differs from ListOptimalTrials %s' % (cl1, cl2, got), cc)
-    key = json.dumps(canon_case(case))
-    if key in per_case and per_case[key] != (stored, got) and not any(v != v for t in stored for _, v in t['final']):
-      c.prop_fail('list-optimal-trials-backend-differs', 'RAM and SQL datastores answer differently', cc)
-    per_case.setdefault(key, (stored, got))
   if runs:
     c.sample({'service_history': canon_case(runs[0][0]), 'stored': canon_case(runs[0][2]), 'ListOptimalTrials': runs[0][3], 'definition': models[0]['def']})
   svc.cleanup()
@@ -554,7 +549,7 @@ def inram_stage(c, V, n):
   V.inram_filters = (got == [2])
   c.flags['getBestFiltersEligible'] = V.inram_filters
   if not V.inram_filters:
-    c.prop_fail(KEY_INRAM_NAN, 'GetBestTrials returned %s for [unfinished trial 1, completed trial 2 = (1, 1)]; the optimal trials are [2]' % got,
+    c.prop_fail(KEY_INRAM_NAN if got == [] else 'inram-getbest-other', 'GetBestTrials returned %s for [unfinished trial 1, completed trial 2 = (1, 1)]; the optimal trials are [2]' % got,
                 {'case': canon_case(INRAM_WITNESS), 'real': got, 'definition': [2], 'witness_of': 'c11_inram_counterexample'})
   cases = [gen_inram_case(c.rng) for _ in range(n)]
   runs, reqs = [], []
